@@ -1328,11 +1328,11 @@ class Frame:
                     except MergeFail:
                         pass
                 k = eng.concretize_enum(k)
-            elif isinstance(k, Sym):
-                if isinstance(k, SStr) and k.is_concrete():
+            elif isinstance(k, SStr):
+                if k.is_concrete():
                     k = k.concrete()
-                else:
-                    raise Unsupported('dict key symbolic')
+            elif isinstance(k, Sym) and not isinstance(k, SInt):
+                raise Unsupported('dict key symbolic')
             if _symkey(k) or any(_symkey(kk) for kk in o):
                 if g is not None:
                     raise MergeFail('symbolic dict key under guard')
@@ -1615,13 +1615,7 @@ class Frame:
             elif isinstance(k, SStr):
                 if k.is_concrete():
                     k = k.concrete()
-                else:
-                    from . import sstr
-                    for kk in o:
-                        if isinstance(kk, str) and eng.decide(sstr.eq(k, kk)):
-                            return o[kk]
-                    raise RaiseEx(KeyError('<symbolic key>'))
-            elif isinstance(k, Sym):
+            elif isinstance(k, Sym) and not isinstance(k, SInt):
                 raise Unsupported(f'dict key {type(k).__name__}')
             if _symkey(k) or any(_symkey(kk) for kk in o):
                 hit = self._dict_find(o, k)
@@ -1996,7 +1990,10 @@ class SymSetLiteral(Sym):
 
 
 def _symkey(k):
-    return isinstance(k, tuple) and any(isinstance(x, Sym) for x in k)
+    """keys that are compared by solver-decided equality (association-list semantics): symbolic integers (e.g. the key of a
+    module-level memo) and tuples with symbolic members"""
+    return isinstance(k, SInt) or (isinstance(k, SStr) and not k.is_concrete()) or \
+        (isinstance(k, tuple) and any(isinstance(x, Sym) for x in k))
 
 
 def _has_call_to_mutator(e):
